@@ -720,19 +720,22 @@ def hAddLayers (n : Name) : List Arr → List ArrIn → Heap → Except (Err × 
       | .ok (r, h2) => .ok (a' :: r, h2)
       | .error (e, r, h2) => .error (e, a' :: r, h2)
 
+/-- `if calibration is None: calibration = Calibration()`, then `self.calibration[element] = calibration`:
+the object given is stored itself, in the dict object the laser already has -/
+def Heap.storeCal (h : Heap) (dictId : Nat) (n : Name) (cal : Option Nat) : Heap :=
+  let r : Nat × Heap := match cal with
+    | none => h.allocCal 0
+    | some k => (k, h)
+  { r.2 with dicts := r.2.dicts.set dictId (dictSet (r.2.dict dictId) n r.1) }
+
 /-- `add(element, data, calibration)`; `xs`: shape and cell of the caller's array per layer, `cal`: the
-identity of the caller's `Calibration` (stored as it is) or `None` (a new default one) -/
+identity of the caller's `Calibration` or `None` -/
 def hAdd (w : World) (n : Name) (xs : List ArrIn) (cal : Option Nat) : Res World :=
   if xs.length ≠ w.laser.data.length then .fail .assertion w
   else
     match hAddLayers n w.laser.data xs w.heap with
     | .error (e, ls, h) => .fail e { heap := h, laser := { w.laser with data := ls } }
-    | .ok (ls, h) =>
-      let r : Nat × Heap := match cal with
-        | none => h.allocCal 0
-        | some k => (k, h)
-      .ok { heap := { r.2 with dicts := r.2.dicts.set w.laser.cal (dictSet (r.2.dict w.laser.cal) n r.1) },
-            laser := { w.laser with data := ls } }
+    | .ok (ls, h) => .ok { heap := h.storeCal w.laser.cal n cal, laser := { w.laser with data := ls } }
 
 def hDropLayers (ns : List Name) : List Arr → Heap → List Arr × Heap
   | [], h => ([], h)
